@@ -17,7 +17,8 @@ RULE = ("correspondence: (a) the real _find_boundary vs the regenerated find_bou
 TRUSTED = ["translator tools/py2coq.py (Mean spec incl. _find_boundary pattern)", "scipy.optimize.brentq contract (solver_ok)",
            "stand-in shims", "monotonicity of power in n for the t test (C08 partial) for minimality"]
 ASSUMES = ["brentq's tolerance: n_obs may be off by one when the root is within 1e-9 of an integer; the oracle tolerates exactly that",
-           "row assembly of solve_power_from_aggregates is checked by the oracle, not modelled in Coq"]
+           "row assembly: template translation (the source text of solve_power_from_aggregates / _validate_power_parameters must be "
+           "unchanged) + exact differential of the rows"]
 
 
 def usolver(fn, lo, hi, maxiter=None):
@@ -82,6 +83,55 @@ def correspondence(ctx):
         expect.append([got])
         ctx.count("mode:" + mode)
         ctx.case_seen(cases[-1])
+    # (c) the row assembly of solve_power_from_aggregates: sequences of effect sizes / n_obs, all four parameters
+    import gen as G
+    for i in range(ctx.n(60, 1500)):
+        cfg = meanx.rand_cfg(ctx.rng)
+        rows_ = G.rand_rows(ctx.rng, ctx.rng.choice([3, 4, 6]), style=ctx.rng.choice(["ints", "smallpos"]))
+        agg = G.real_aggregates(rows_, G.COLS)
+        par = ctx.rng.choice(["power", "effect_size", "rel_effect_size", "n_obs"])
+        seq = lambda k, lo, hi, den: [F(ctx.rng.randint(lo, hi), ctx.rng.choice(den)) for _ in range(k)]
+        which = ctx.rng.choice(["abs", "rel", "none"]) if par in ("power", "n_obs") else "none"
+        es = seq(ctx.rng.choice([1, 2, 3]), 1, 40, [1, 10]) if which == "abs" else None
+        rs = seq(ctx.rng.choice([1, 2, 3]), 1, 30, [10, 100]) if which == "rel" else None
+        ns = seq(ctx.rng.choice([1, 2, 3]), 10, 3000, [1]) if ctx.rng.random() < 0.6 else None
+        scalar = ctx.rng.random() < 0.3     # a scalar attribute instead of a one-element sequence (_to_seq)
+        unseq = lambda l: l if l is None else (l[0] if scalar and len(l) == 1 else tuple(l))
+        with meanx.rational_shims():
+            old = M.scipy.optimize
+            M.scipy.optimize = type("O", (), {"brentq": staticmethod(usolver)})
+            try:
+                m = meanx.make_metric(cfg)
+                from props.C10 import UQE
+                m.ratio = UQE(m.ratio)
+                m.effect_size, m.rel_effect_size, m.n_obs = unseq(es), unseq(rs), unseq(ns)
+                try:
+                    out = m.solve_power_from_aggregates(agg, par)
+                    got = []
+                    for r_ in out:
+                        got += [meanx._F(r_.power), meanx._F(r_.effect_size), meanx._F(r_.rel_effect_size), meanx._F(r_.n_obs)]
+                    got = [F(1)] + got
+                except ValueError as ex:
+                    if "should be defined" not in str(ex):
+                        raise
+                    got = [F(0)]
+                except (RuntimeError, ZeroDivisionError):
+                    ctx.count("rows:skipped")
+                    continue
+            finally:
+                M.scipy.optimize = old
+        ol = lambda l: "None" if l is None else "(Some [" + "; ".join(H.qlit(x) for x in l) + "])"
+        pc = {"power": "PPower", "effect_size": "PEffect", "rel_effect_size": "PRelEffect", "n_obs": "PNObs"}[par]
+        cases.append({"kind": "rows", "cfg": meanx.cfg_json(cfg), "parameter": par, "agg": G.agg_json(agg),
+                      "effect_size": None if es is None else [H.frac(x) for x in es],
+                      "rel_effect_size": None if rs is None else [H.frac(x) for x in rs],
+                      "n_obs": None if ns is None else [H.frac(x) for x in ns], "scalar": scalar})
+        terms.append(f"match rom_solve_power_from_aggregates ufam usolver {meanx.coq_cfg(cfg)} {ol(es)} {ol(rs)} {ol(ns)} "
+                     f"{G.coq_agg(agg)} {pc} with None => [(0%Z, 1%Z)] | Some rows => (1%Z, 1%Z) :: flat_map (fun w => "
+                     "[oshow (pw_power w); oshow (pw_effect_size w); oshow (pw_rel_effect_size w); oshow (pw_n_obs w)]) rows end")
+        expect.append(got)
+        ctx.count("rows:" + par + ":" + which)
+        ctx.case_seen(cases[-1])
     res, errs = H.coq_eval_shards("c09", HEADER, terms)
     for e_ in errs:
         ctx.oblige(False, "correspondence", "vm_compute evaluation", e_)
@@ -89,7 +139,7 @@ def correspondence(ctx):
         if r is None:
             continue
         got = H.parse_pairs(r)
-        ctx.oblige(got == exp, "correspondence", "model = real _find_boundary / _solve_power_from_stats (exact, stand-ins)",
+        ctx.oblige(got == exp, "correspondence", "model = real _find_boundary / _solve_power_from_stats / solve_power_from_aggregates rows (exact, stand-ins)",
                    f"model={got} real={exp}", case)
         ctx.sample(case, limit=4)
 
